@@ -30,6 +30,33 @@ fn pb_varint_chain() {
     kani::cover!(s == 0);
 }
 
+/// (complete) the fixed-width scalar merges (fixed_width! macro) on a TRUNCATED payload -- fewer bytes left than
+/// the width of the type, including none: the result is a decode error, never a panic in Buf::get_*_le, and an
+/// exactly sufficient payload is accepted
+#[kani::proof]
+#[kani::unwind(10)]
+#[kani::stub(alloc::fmt::format, stub_format)]
+fn pb_fixed_truncated() {
+    let raw: [u8; 8] = kani::any();
+    let n: usize = kani::any();
+    kani::assume(n <= 8);
+    let ctx = DecodeContext::default();
+    { let mut r: &[u8] = &raw[..n]; let mut v: u64 = kani::any();
+      let res = encoding::fixed64::merge(WireType::SixtyFourBit, &mut v, &mut r, ctx.clone()); assert!(res.is_err() == (n < 8)); }
+    { let mut r: &[u8] = &raw[..n]; let mut v: f64 = 0.0;
+      let res = encoding::double::merge(WireType::SixtyFourBit, &mut v, &mut r, ctx.clone()); assert!(res.is_err() == (n < 8)); }
+    { let mut r: &[u8] = &raw[..n]; let mut v: i64 = kani::any();
+      let res = encoding::sfixed64::merge(WireType::SixtyFourBit, &mut v, &mut r, ctx.clone()); assert!(res.is_err() == (n < 8)); }
+    { let mut r: &[u8] = &raw[..n]; let mut v: u32 = kani::any();
+      let res = encoding::fixed32::merge(WireType::ThirtyTwoBit, &mut v, &mut r, ctx.clone()); assert!(res.is_err() == (n < 4)); }
+    { let mut r: &[u8] = &raw[..n]; let mut v: f32 = 0.0;
+      let res = encoding::float::merge(WireType::ThirtyTwoBit, &mut v, &mut r, ctx.clone()); assert!(res.is_err() == (n < 4)); }
+    { let mut r: &[u8] = &raw[..n]; let mut v: i32 = kani::any();
+      let res = encoding::sfixed32::merge(WireType::ThirtyTwoBit, &mut v, &mut r, ctx.clone()); assert!(res.is_err() == (n < 4)); }
+    kani::cover!(n == 3);
+    kani::cover!(n == 8);
+}
+
 // skip_field is verified in Verus (vf/units/prost.vu, rule D18); Kani harnesses over it (recursion through
 // generic Buf code) did not finish within 25 minutes even for 4-byte inputs and are not kept.
 
